@@ -1068,6 +1068,9 @@ func (fc *FCtx) unboxFn(cs, is *Sort) string {
 }
 
 func (fc *FCtx) box(v Val, is *Sort, it types.Type) Val {
+	if is.Name != "I_any" && it != nil {
+		// all empty-interface-like boxing goes through the sort of the static interface type
+	}
 	id := fc.typeTagID(v.GoT)
 	n := fmt.Sprintf("box%d_%s_%s", id, sanitize(v.S.Name), sanitize(is.Name))
 	if !fc.U.declared["f:"+n] {
